@@ -392,6 +392,8 @@ class Interp:
                 pass
             else:
                 return self.call(fn.__func__, [fn.__self__] + list(args), kwargs, node)
+        if isinstance(fn, types.FunctionType) and getattr(fn, '__pyvc_native__', False):
+            return self.native(fn, args, kwargs)       # helper of the contract layer: runs natively on (symbolic) values
         if isinstance(fn, types.FunctionType):
             con = self.contracts.get(fn.__qualname__)
             if con is not None and fn.__qualname__ != self.verify_target and not self.spec_depth:
